@@ -761,9 +761,7 @@ class _Parser:
             # byte and half-word patterns are replicated over the 32-bit fill word
             st["word"] = v * 0x01010101 if size == 1 else v * 0x00010001 if size == 2 else v
             # sized by magnitude (SPSDK) and sized by suffix (elftosb) agree only here:
-            st["unambiguous"] = (
-                (size == 1) or (size == 2 and v >= 0x100) or (size in (4, None) and (v == 0 or v >= 0x10000))
-            )
+            st["unambiguous"] = v == 0 or size == 1 or (size == 2 and v >= 0x100) or (size in (4, None) and v >= 0x10000)
             if st["length"] is not None and st["length"] % 4:
                 raise BDError("fill range not a multiple of 4")
             self.feat("kind:fill")
